@@ -19,7 +19,7 @@ def pool(chk, tier):
             9.999999999999999e22, 1e-7, 120.5]
     texts = ['', 'a', 'A', 'b', 'ab', 'abc', 'B', 'Z', '5', '10', '9', '-5', '0', '1.5', '1.25', ' 7 ', '1e2', '+3',
              'нет', '1.50', '5.0', '.5', '5.', 'e5', '1e', '--1', '12a', 'TRUE',
-             'nan', 'NaN', '-nan', 'inf', '-inf', 'Infinity', '1_0', '٣']     # float() takes these for numbers (NaN breaks every law); they are texts
+             'nan', 'NaN', '-nan', 'inf', '-inf', 'Infinity', '1_0', '٣', ' ', '  ', '\t', ' a']     # float() takes these for numbers (NaN breaks every law); they are texts
     dates = [dt.date(2024, 1, 1), dt.datetime(2024, 1, 1), dt.datetime(2024, 1, 1, 0, 0, 1),
              dt.datetime(2023, 12, 31, 23, 59, 59), dt.datetime(2024, 1, 1, 1, 10, 10), dt.date(2023, 12, 31),
              dt.datetime(2024, 1, 1, 0, 0, 0, 1), dt.date(1900, 1, 1), dt.datetime(9999, 12, 31, 23, 59, 59, 999999)]
